@@ -555,6 +555,148 @@ def check_shared_mechanisms(chk, F):
                                                                    "compare the right figure with the right limit"), F)
 
 
+# ---- R08.9 whole policies through the compiler, by evaluation ---------------------------------------------------------
+
+def compile_family(tier):
+    """-> [(policy, context)]"""
+    A, B, C, D = (("key", x) for x in "ABCD")
+    O5, O9, OT, A9, H = ("older", 5), ("older", 9), ("older", 4194309), ("after", 9), ("hash", "Sha256", "H")
+    # a k-of-n threshold / a conjunction with a height and a time lock of one kind: refused on a correct tree (costs nothing),
+    # compiled -- and then judged -- if a gate lets it through
+    mixed = [("thresh", 2, [C, ("and", [A, O5]), ("and", [B, OT])]), ("and", [A, ("and", [O5, OT])])]
+    cheap = [A, ("and", [A, B]), ("or", [A, B]), ("orw", [(9, A), (1, B)]), ("and", [A, A9]), ("thresh", 2, [A, B, C]),
+             ("thresh", 2, [A, B, O5]), ("thresh", 2, [A, B, H]), ("thresh", 1, [A, B]), ("and", [A, ("or", [B, O5])]),
+             # two different locks of one kind in one policy: the policy cache must tell them apart
+             ("and", [("and", [A, O5]), O9]), ("and", [("and", [A, O5]), H]), ("and", [("or", [A, B]), ("or", [C, D])])]
+    tap_too = [("and", [A, B]), ("thresh", 2, [A, B, C]), ("thresh", 2, [A, B, O5]), ("and", [("and", [A, O5]), O9])]
+    quick = [(p, "segwitv0") for p in cheap + mixed] + [(p, "tap") for p in tap_too + mixed]
+    if tier == "quick":
+        return quick
+    dear = [("and", [A, O5]), ("and", [A, H]), ("orw", [(1, A), (9, B)]), ("thresh", 3, [A, B, C]), ("and", [("and", [A, B]), C]),
+            ("or", [A, ("and", [B, O5])]), ("or", [A, ("and", [B, H])]), ("or", [("or", [A, B]), C]),
+            ("or", [("and", [A, B]), ("and", [C, O5])]), ("or", [("and", [A, O5]), ("and", [B, O9])]),
+            ("or", [("and", [A, O5]), ("and", [B, OT])]), ("or", [A, ("or", [B, ("and", [C, O5])])]),
+            ("and", [A, ("thresh", 2, [B, C, O5])]), ("orw", [(99, A), (1, ("and", [B, A9]))]),
+            ("thresh", 2, [A, ("and", [B, O5]), C])]
+    out = list(quick)
+    for p in cheap + dear:
+        for ctx in ("segwitv0", "tap"):
+            if (p, ctx) not in out:
+                out.append((p, ctx))
+    return out
+
+
+def _pol_adt(F, p):
+    from . import c18
+    if p[0] == "orw":
+        return Adt(c18.CP, "Or", {"0": PyVec([(w, _pol_adt(F, x)) for w, x in p[1]])})
+    if p[0] == "and":
+        return Adt(c18.CP, "And", {"0": PyVec([_pol_adt(F, x) for x in p[1]])})
+    if p[0] == "or":
+        return Adt(c18.CP, "Or", {"0": PyVec([(1, _pol_adt(F, x)) for x in p[1]])})
+    if p[0] == "thresh":
+        return Adt(c18.CP, "Thresh", {"0": model.threshold(p[1], [_pol_adt(F, x) for x in p[2]])})
+    return c18.to_lib(F, p, c18.CP)
+
+
+def _pol_sem(p):
+    if p[0] == "orw":
+        return ("or", [_pol_sem(x) for _, x in p[1]])
+    if p[0] in ("and", "or"):
+        return (p[0], [_pol_sem(x) for x in p[1]])
+    if p[0] == "thresh":
+        return ("thresh", p[1], [_pol_sem(x) for x in p[2]])
+    return p
+
+
+def _compile_work(args):
+    from .. import facts, textmodel as tm
+    from . import c06, c07, c14, c18
+    tm.sys_path_spec()
+    import policy_sem as PS
+    F = facts.load()
+    p, ctx = args
+    m = Machine(F, strict=True, max_depth=220)
+    m.text_keys = True
+    m.max_steps = 400_000_000
+    c14.lock_hooks(m)
+    key = "%s|%r" % (ctx, p)
+    try:
+        comp = [q for q in F.fns if q.endswith("policy::concrete::Policy::<Pk>::compile")][0]
+        r = m.call_callee({"def": comp, "resolved": comp, "name": "compile", "targs": ["std::string::String", c06.CTX[ctx]]},
+                          [_pol_adt(F, p)])
+        if not (isinstance(r, Adt) and r.variant == "Ok"):
+            return key, "refused", repr(r)[:160], []
+        ms = r.fields["0"]
+        out, _ = tm.display(m, ms)
+        text = "".join(map(str, out))
+        bad = []
+        st = "miniscript::private::Miniscript<std::string::String, %s>" % c06.CTX[ctx]
+        lp = c07.lift_impl(F, "miniscript::private::Miniscript")
+        lr = m.call_callee({"def": lp, "resolved": lp, "name": "lift", "targs": [], "self_ty": st}, [ms])
+        if not (isinstance(lr, Adt) and lr.variant == "Ok"):
+            bad.append("the compiled script %s does not lift: %s" % (text, repr(lr)[:120]))
+        else:
+            got = c18.from_lib(lr.fields["0"])
+            if not PS.equivalent(_pol_sem(p), got):
+                bad.append("the compiled script %s has the spending condition %r, the policy is %r" % (text, got, _pol_sem(p)))
+        ty = ms.fields["ty"]
+        if ty.fields["corr"].fields["base"].variant != "B":
+            bad.append("the compiled script %s is not of type B" % text)
+        if not ty.fields["mall"].fields["signed"]:
+            bad.append("the compiled script %s has a path without signature" % text)
+        if not ty.fields["mall"].fields["non_malleable"]:
+            bad.append("the compiled script %s is malleable" % text)
+        from . import c12
+        vp = [q for q in F.fns if q.endswith("miniscript::private::Miniscript::<Pk, Ctx>::validate")]
+        sane = c12.params_value(F, "<%s as miniscript::context::ScriptContext>::SANE" % c06.CTX[ctx])
+        if len(vp) == 1:
+            sr = m.call_callee({"def": vp[0], "resolved": vp[0], "name": "validate", "targs": ["std::string::String", c06.CTX[ctx]]},
+                               [ms, sane])
+            if not (isinstance(sr, Adt) and sr.variant == "Ok"):
+                bad.append("the compiled script %s is refused by the context's SANE parameters: %s" % (text, repr(sr)[:120]))
+        else:
+            bad.append("anchor: Miniscript::validate not found")
+        # re-parse from its own text
+        T_ = c06.Typer(F)
+        tr = tm.parse_tree(F, T_.m, text)
+        ri = T_.m.call_path(T_.root, [tr.fields["0"]])
+        rr = T_.m.call_callee({"def": "expression::FromTree::from_tree", "resolved": T_.ft, "name": "from_tree",
+                               "trait": "expression::FromTree",
+                               "resolved_container": "miniscript::<impl expression::FromTree for miniscript::private::Miniscript<Pk, Ctx>>",
+                               "self_ty": st, "targs": [st]}, [ri])
+        if not (isinstance(rr, Adt) and rr.variant == "Ok") or tm.strip(rr.fields["0"]) != tm.strip(ms):
+            bad.append("the text %s of the compiled script does not parse back to it" % text)
+        return key, "ok", text, bad
+    except Unsupported as e:
+        return key, "unanalysable", "unanalysable: %s (%s)" % (e, e.where), []
+    except Panic as e:
+        return key, "ok", "", ["panic while compiling: %s" % e]
+
+
+def check_compile_end_to_end(chk, F):
+    import multiprocessing as mp
+    R = "R08.9"
+    chk.rule(R, "whole policies through Policy::compile (both signature contexts), by evaluating the compiler itself: whenever "
+                "a miniscript is returned it lifts (evaluated) to a policy with the truth table of the input policy, is of type "
+                "B, signed and non-malleable, passes validate(&Ctx::SANE), and its text parses back to it")
+    jobs = compile_family(chk.tier)
+    with mp.Pool(min(16, os.cpu_count() or 4)) as pool:
+        res = pool.map(_compile_work, jobs, chunksize=1)
+    n_ok = 0
+    for key, status, info, bad in res:
+        if status == "unanalysable":
+            chk.fail(R, "unanalysable:" + key, info, kind="unanalysable")
+        elif status == "refused":
+            chk.extra.setdefault("R08.9_refused", []).append("%s: %s" % (key, info))
+        else:
+            n_ok += 1
+            chk.obligation(R, not bad, key, "; ".join(bad[:2])[:800], where="src/policy/compiler.rs")
+            if len(chk.extra.setdefault("R08.9_samples", [])) < 12:
+                chk.extra["R08.9_samples"].append("%s -> %s" % (key, info))
+    chk.floor(R, "compiled policies", n_ok, 16)
+
+
 def run(chk):
     F = chk.facts()
     chk.explanation = __doc__
@@ -570,3 +712,5 @@ def run(chk):
         chk.guard("R08.4", "inner-gates", check_inner_gates, chk, F)
     if not ONLY or "6" in ONLY:
         chk.guard("R08.6", "shared", check_shared_mechanisms, chk, F)
+    if not ONLY or "9" in ONLY:
+        chk.guard("R08.9", "compile-end-to-end", check_compile_end_to_end, chk, F)
